@@ -44,9 +44,13 @@ fn next_half(
 
 	// It's not a mistake. We really need a bit-to-bit comparison of float values here
 	// Also it is not a good idea to use `match value.partial_cmp(slice[half]): it is slower.
+	//
+	// The buffer is kept in IEEE 754 total order, where `-0.0` sorts before `0.0`. Ordering it by `>`
+	// would treat both zeros as equal while the bit-to-bit comparison tells them apart, and the search
+	// for a value could then miss it.
 	if value.to_bits() == get(slice, half).to_bits() {
 		padding + half
-	} else if &value > get(slice, half) {
+	} else if value.total_cmp(get(slice, half)) == Ordering::Greater {
 		f(value, get(slice, (half + 1)..), padding + half + 1)
 	} else {
 		f(value, get(slice, ..half), padding)
@@ -253,18 +257,12 @@ impl<'de> Deserialize<'de> for SMM {
 
 		let mut slice = window.as_slice().to_owned().into_boxed_slice();
 
-		let mut sort_error = false;
-
-		slice.sort_unstable_by(|a, b| {
-			a.partial_cmp(b).unwrap_or_else(|| {
-				sort_error = true;
-				Ordering::Equal
-			})
-		});
-
-		if sort_error {
+		if slice.iter().any(|x| x.is_nan()) {
 			return Err(serde::de::Error::custom("SMM cannot operate NaN values"));
 		}
+
+		// the same order `next` maintains, so a restored instance continues exactly like the original one
+		slice.sort_unstable_by(ValueType::total_cmp);
 
 		let half = window.len() / 2;
 		let is_even = window.len() % 2 == 0;
